@@ -381,14 +381,18 @@ func c18Codec(c *Ctx, dec *ssa.Function) {
 			t := b.Of(e.Results[0], e.Instr)
 			want := "slice(obj(alloc<[80]byte>, call<builtin.copy>(slice(slice(self, 0, 80), 0, 32), call<(*ed.Point).Bytes>(load(faddr<#0>(p0)))), call<builtin.copy>(slice(slice(self, 0, 80), 32, 48), call<(*ed.Scalar).Bytes>(load(faddr<#1>(p0)))), call<builtin.copy>(slice(slice(self, 0, 80), 48, none), call<(*ed.Scalar).Bytes>(load(faddr<#2>(p0))))), 0, 80)"
 			_, ok := ana.MatchX(c.P, want, t)
+			if !ok {
+				// the same 80 bytes appended in order (Point.Bytes and Scalar.Bytes are 32 bytes long; c contributes its first 16)
+				_, ok = ana.MatchX(c.P, "concat(call<(*ed.Point).Bytes>(load(faddr<#0>(p0))), slice(call<(*ed.Scalar).Bytes>(load(faddr<#1>(p0))), 0, 16), call<(*ed.Scalar).Bytes>(load(faddr<#2>(p0))))", t)
+			}
 			r.Check(ok, "C18.codec-layout.writer", c.ipos(e.Instr), "Bytes() = Gamma[0:32] ‖ c[32:48] (first 16 bytes) ‖ s[48:80] %s", ana.Explain(want, t))
 		}
 	}
 	if f := c.fn("pkg/vrf", "Proof.UnmarshalBinary"); f != nil && dec != nil {
 		fn := f.Function
 		b := ana.NewBuilder(c.P, fn)
-		cdec := "obj(call<ed.NewScalar>, call<(*ed.Scalar).SetCanonicalBytes>(self, slice(obj(alloc<[32]byte>, call<builtin.copy>(slice(self, 0, 32), slice(p1, 32, 48))), 0, 32)))"
-		sdec := "obj(call<ed.NewScalar>, call<(*ed.Scalar).SetCanonicalBytes>(self, slice(p1, 48, none)))"
+		cdec := "obj(call<ed.NewScalar>, call<(*ed.Scalar).SetCanonicalBytes>(self, slice(obj(alloc<[32]byte>, call<builtin.copy>(slice(self, 0, 16), alt(slice(p1, 32, 48), slice(p1, 32, none)))), 0, 32)))"
+		sdec := "obj(call<ed.NewScalar>, call<(*ed.Scalar).SetCanonicalBytes>(self, slice(p1, 48, alt(none, 80))))" // len(p1) == 80 at this point (length gate)
 		g := []struct{ name, acc, rej string }{
 			{"length-80", "bin<==>(len(p1), 80)", "bin<!=>(len(p1), 80)"},
 			{"gamma-canonical", "bin<==>(ext#1(call<*>(slice(p1, 0, 32))), nil)", "bin<!=>(ext#1(call<*>(slice(p1, 0, 32))), nil)"},
@@ -556,7 +560,7 @@ func c18Hashes(c *Ctx, dec *ssa.Function) {
 			t := b.Of(e.Results[0], e.Instr)
 			hist := "obj(call<crypto/sha512.New>, " + hw(glob("suiteString")) + ", " + hw(glob("challengeGenerationDomainSeparatorFront")) + ", " + hw("p0") + ", " + hw("p1") + ", " +
 				hw("call<(*ed.Point).Bytes>(p2)") + ", " + hw("call<(*ed.Point).Bytes>(p3)") + ", " + hw("call<(*ed.Point).Bytes>(p4)") + ", " + hw(glob("challengeGenerationDomainSeparatorBack")) + ")"
-			want := "obj(call<ed.NewScalar>, call<(*ed.Scalar).SetCanonicalBytes>(self, slice(obj(alloc<[32]byte>, call<builtin.copy>(slice(self, 0, 32), slice(call<(hash.Hash).Sum>(" + hist + ", _), 0, 16))), 0, 32)))"
+			want := "obj(call<ed.NewScalar>, call<(*ed.Scalar).SetCanonicalBytes>(self, slice(obj(alloc<[32]byte>, call<builtin.copy>(slice(self, 0, 16), slice(call<(hash.Hash).Sum>(" + hist + ", _), 0, 16))), 0, 32)))"
 			_, ok := ana.MatchX(c.P, want, t)
 			r.Check(ok, "C18.hash-inputs.challenge", c.ipos(e.Instr), "c = first 16 bytes of SHA512(03‖02‖P1‖P2‖P3‖P4‖P5‖00), zero-extended, as a scalar %s", ana.Explain(want, t))
 		}
